@@ -35,7 +35,9 @@ const catRoot = "by-dev"
 func catCollKey(dbID, collID int64) string {
 	return fmt.Sprintf("%s/meta/root-coord/database/collection-info/%d/%d", catRoot, dbID, collID)
 }
-func catDBKey(dbID int64) string { return fmt.Sprintf("%s/meta/root-coord/database/db-info/%d", catRoot, dbID) }
+func catDBKey(dbID int64) string {
+	return fmt.Sprintf("%s/meta/root-coord/database/db-info/%d", catRoot, dbID)
+}
 func catPartKey(collID, partID int64) string {
 	return fmt.Sprintf("%s/meta/root-coord/partitions/%d/%d", catRoot, collID, partID)
 }
@@ -431,10 +433,10 @@ func RunRigC(t *testing.T, plan *Plan) {
 
 func oracleC(s *Sim, sc *CScript, mgr *recManager) {
 	type cinfo struct {
-		id, db        int64
-		name          string
-		states        []int // sequence of states written (-1 = tombstone)
-		preLast       int   // last state written before the reader started (-2 none)
+		id, db  int64
+		name    string
+		states  []int // sequence of states written (-1 = tombstone)
+		preLast int   // last state written before the reader started (-2 none)
 	}
 	colls := map[int64]*cinfo{}
 	type pinfo struct {
